@@ -34,7 +34,8 @@ ASSUMPTIONS = [
 ]
 EXHAUSTIVE = {"quick": False, "thorough": False}
 FLOORS = {"quick": {"cases": 2000, "status:NO": 700, "status:BYE": 500, "status:OK": 500,
-                    "sentinel-pairs": 1200, "random-cases": 3000},
+                    "sentinel-pairs": 1200, "random-cases": 3000,
+                    "slow-starttls-connects": 15},
           "thorough": {"cases": 1500000, "status:NO": 500000, "status:BYE": 250000,
                        "status:OK": 250000, "sentinel-pairs": 500000, "random-cases": 1500000}}
 SHARD_TIMEOUT = {"quick": 600, "thorough": 3000}
@@ -224,12 +225,36 @@ def run_random(shard, res: Result):
             if r != ("ret", True):
                 res.inconclusive.append("auth failed %r" % (r,))
                 return
+            if rng.random() < 0.3:
+                # slow but steady link: virtual seconds pass with every recv(), none times out
+                sess.sock.seconds_per_recv = rng.choice([0.5, 2.0, 4.0])
+                res.count("sessions-on-a-slow-link")
         res.count("random-cases")
         if not run_case(random_case(rng), res, sess):
             sess = None
 
 
 def run_multistep(res: Result):
+    # connect over STARTTLS with every reply OK: success, however long the handshake and the
+    # replies take (virtual time; no recv() ever times out)
+    for hs, per in ((0.0, 0.0), (7.0, 0.0), (0.0, 2.0), (30.0, 3.0), (4.9, 0.5)):
+        for mech in (None, "PLAIN", "LOGIN"):
+            srv = ms.Server(users={b"user": b"pw"}, sasl=["PLAIN", "LOGIN"], starttls=True)
+            sess = mslab.Session(srv)
+            sess.handshake_seconds, sess.seconds_per_recv = hs, per
+            out = sess.call("connect", "user", "pw", starttls=True, authmech=mech)
+            res.count("cases")
+            res.count("status:OK")
+            res.count("slow-starttls-connects")
+            res.case("connect/starttls/slow/%s/%s/%s" % (hs, per, mech))
+            ok = out == ("ret", True)
+            res.monitor("status-mirror", not ok)
+            if not ok:
+                res.violation({"status": "OK", "code": "none", "text": "quoted",
+                               "problem": "all-OK-starttls-connect:%s" % (
+                                   out[1] if out[0] == "exc" else repr(out[1]))},
+                              {"op": "connect", "handshake_seconds": hs,
+                               "seconds_per_recv": per, "outcome": repr(out)[:200]})
     # connect: fault at greeting and at authentication
     for step in ("greeting", "auth-verdict"):
         for f in ("NO", "BYE"):
